@@ -182,6 +182,30 @@ class SpatialVector(SMUserList):
         return  self.__class__([-x for x in self.data])
 
 
+    def __eq__(left, right):  # lgtm[py/not-named-self] pylint: disable=no-self-argument
+        """
+        Overloaded ``==`` operator (superclass method)
+
+        :return: equality of the spatial vectors, value by value
+        :rtype: bool or list of bool
+        :raises TypeError: operands are of different types
+        """
+        if type(left) != type(right):
+            raise TypeError('operands to == are of different types')
+        return left.binop(right, lambda x, y: bool(np.all(x == y)), list1=False)
+
+    def __ne__(left, right):  # lgtm[py/not-named-self] pylint: disable=no-self-argument
+        """
+        Overloaded ``!=`` operator (superclass method)
+
+        :return: inequality of the spatial vectors, value by value
+        :rtype: bool or list of bool
+        :raises TypeError: operands are of different types
+        """
+        if type(left) != type(right):
+            raise TypeError('operands to != are of different types')
+        return left.binop(right, lambda x, y: not bool(np.all(x == y)), list1=False)
+
     def __add__(left, right):  # lgtm[py/not-named-self] pylint: disable=no-self-argument
         """
         Overloaded ``*`` operator (superclass method)
